@@ -177,6 +177,8 @@ def main():
                             ks.update(k for k in range(centre - 3, centre + 4) if 0 < k < len(data) // 512 + 1)
                         bound = [512 * k + d for k in sorted(ks) for d in (-1, 0, 1) if 0 < 512 * k + d < len(data)]
                         offs = bound if not quick else bound[::max(1, len(bound) // 12)]
+                        # a member that ends exactly where a 128 KiB / 256 KiB staging buffer fills (and one byte before / after): always
+                        offs = sorted(set(offs) | set(o_ for o_ in (131071, 131072, 131073, 262143, 262144, 262145, 393216, 524288) if 0 < o_ < len(data)))
                     for o in offs:
                         cases.append(("split", name, "%s two members split at %d" % (codec, o), ("split", codec, (o,)), bss[0], None, True))
                     # empty members (a split at offset 0 / at the end / twice at the same offset): at the very start, on an entry boundary, inside a header
